@@ -131,13 +131,19 @@ def check_block_signatures(nodes: typing.List[ValidatorDescr], signatures: typin
 
     to_sign = b'pn\x0b\xc5' + blk.root_hash + blk.file_hash  # bytes.fromhex('c50b6e70')[::-1] - magic
     i = 0
+    seen = set()
     for sig in signatures:
-        node = node_map.get(bytes.fromhex(sig['node_id_short']))
+        node_id_short = bytes.fromhex(sig['node_id_short'])
+        node = node_map.get(node_id_short)
         node: ValidatorDescr
         i += 1
 
         if node is None:
             raise ProofError('cannot find node_id_short in validator list')
+
+        if node_id_short in seen:
+            raise ProofError('duplicate signature of the same validator')
+        seen.add(node_id_short)
 
         result = verify_sign(public_key=node.public_key.pubkey, signed_message=to_sign, signature=sig['signature'])
 
